@@ -29,7 +29,7 @@ def run(rep, tier, seed):
     rep.assumptions = ['duration is checked against a virtual clock substituted for time.time in tape_recorder',
                        'the exception flag is only claimed for runs that were not cut short']
     chk = RecorderCheck(rep, tier, seed, CATS, nontrivial)
-    chk.driver_opts = {'check_default_lookup': True}
+    chk.driver_opts = {'check_default_lookup': True, 'returned_exceptions': True}
     try:
         if tier == 'quick':
             chk.check('chk', gen_consts(2), invariants=INVS)
